@@ -102,6 +102,11 @@ pub struct Case {
     pub holder_delay: u16,
     pub cp_delay: u16,
     pub req: Req,
+    /// the node runs with the policy filter [policy-sweep-destination-allowlisted: error,
+    /// policy-*: warn]: the first matching rule wins, so the destination rule stays mandatory
+    /// while everything else is only logged; the oracle then judges the destination rule alone
+    #[serde(default)]
+    pub carve_out: bool,
 }
 
 fn dest_strat() -> impl Strategy<Value = Dest> {
@@ -214,14 +219,25 @@ impl Prop for C09 {
     }
     fn strategy(&self, _tier: Tier) -> BoxedStrategy<Case> {
         let delay = prop_oneof![Just(4u16), Just(6u16), Just(144u16), Just(2016u16), 4u16..2017];
-        (any::<bool>(), any::<bool>(), delay.clone(), delay, prop_oneof![1 => sweep_strat(), 1 => htlc_strat()])
-            .prop_map(|(anchors, outbound, holder_delay, cp_delay, req)| Case { anchors, outbound, holder_delay, cp_delay, req })
+        (any::<bool>(), any::<bool>(), delay.clone(), delay, prop_oneof![1 => sweep_strat(), 1 => htlc_strat()], prop::bool::weighted(0.12))
+            .prop_map(|(anchors, outbound, holder_delay, cp_delay, req, carve_out)| Case { anchors, outbound, holder_delay, cp_delay, carve_out: carve_out && matches!(req, Req::Sweep { .. }), req })
             .boxed()
     }
 
     fn run(&self, case: &Case, st: &mut CaseStats, ctx: &Ctx) -> Result<(), Violation> {
         let net = Network::Testnet;
-        let mut w = World::new(WorldCfg::default_testnet());
+        let mut cfg = WorldCfg::default_testnet();
+        if case.carve_out {
+            use lightning_signer::policy::filter::{FilterResult, FilterRule, PolicyFilter};
+            cfg.policy.filter = PolicyFilter {
+                rules: vec![
+                    FilterRule { tag: "policy-sweep-destination-allowlisted".to_string(), is_prefix: false, action: FilterResult::Error },
+                    FilterRule { tag: "policy-".to_string(), is_prefix: true, action: FilterResult::Warn },
+                ],
+            };
+            st.class("carve_out_filter");
+        }
+        let mut w = World::new(cfg);
         let secp = w.secp.clone();
         let mut spec = ChanSpec::basic(1);
         spec.anchors = case.anchors;
@@ -362,6 +378,17 @@ impl Prop for C09 {
                 let mut bad: Vec<&'static str> = vec![];
                 if !all_ok {
                     bad.push("destination-not-owned-or-allowlisted");
+                }
+                if case.carve_out {
+                    // every other rule is demoted to a warning by the filter
+                    if let Some(b) = bad.first() {
+                        return ctx.report(st, Violation::new(
+                            format!("C09:sweep:{}:accepted-under-carve-out-filter:{}", kname, b),
+                            format!("sweep signed although {:?} and the filter keeps policy-sweep-destination-allowlisted an error: case={:?}", bad, case),
+                        ));
+                    }
+                    st.class("sweep:accepted:carve-out");
+                    return Ok(());
                 }
                 if *version != 2 {
                     bad.push("version");
